@@ -31,8 +31,7 @@
 //!   Q<b>      `ImmediateEffect::new_isomorphic(body b)`   q<b>  `ImmediateEffect::new_mut(body b)`
 //!   J<b>      `ImmediateEffect::new_scoped(body b)` (no handle: it lives until the current owner's next clean-up)
 //!   z<s>.<v>  `if sigs[s].get_untracked() < v { sigs[s].set(v) }` — inside an immediate effect that reads
-//!             s this makes the effect recurse; ignored inside a memo run, while a `new_mut` function runs,
-//!             in the function of an `AsyncDerived` and while one is being constructed
+//!             s this makes the effect recurse; ignored inside a memo run and while a `new_mut` function runs
 //!   k<b>      `spawn_local_scoped(async { body b; yield; body b })`   K<b>  `spawn_local_scoped_with_cancellation(..)`
 //!   f<b>      `Executor::spawn_local(ScopedFuture::new(..))`
 //!             (a task is entered in the effect table: R<e>/S<e>=sum per segment, e<k>=l until its future
@@ -1156,15 +1155,12 @@ fn exec_bop(op: &BOp, sum: &mut i64) {
                 eid
             });
             let sentinel = Sentinel(eid);
-            // no `z` writes while the value is being constructed
-            w(|w| w.mut_depth += 1);
             let a = AsyncDerived::new(move || {
                 let _keep = &sentinel;
                 let v = run_effect_body(eid, b);
                 async move { v }
             });
             w(|w| {
-                w.mut_depth -= 1;
                 w.effs[eid] = AnyEff::Async(a);
                 w.sh_new_handle(H::E(eid));
             });
@@ -1236,11 +1232,7 @@ fn exec_bop(op: &BOp, sum: &mut i64) {
             }
         }
         BOp::Write(s, v) => {
-            if w(|w| {
-                w.memo_depth > 0
-                    || w.mut_depth > 0
-                    || matches!(w.obs.last(), Some(Some(Obs::Eff(e))) if w.ekind[*e] == EKind::Async)
-            }) {
+            if w(|w| w.memo_depth > 0 || w.mut_depth > 0) {
                 return;
             }
             if let Some(sig) = w(|w| w.sigs.get(s).copied()) {
